@@ -484,8 +484,11 @@ class CSSStyleSheet(cssutils.stylesheets.StyleSheet):
 
     def _updateVariables(self):
         """Updates self._variables, called when @import or @variables rules
-        is added to sheet.
+        is added to or removed from the sheet.
         """
+        # from scratch: variables of rules which are gone are gone too
+        for name in list(self._variables.keys()):
+            self._variables.removeVariable(name)
         for r in self.cssRules.rulesOfType(CSSRule.IMPORT_RULE):
             s = r.styleSheet
             if s:
@@ -568,6 +571,8 @@ class CSSStyleSheet(cssutils.stylesheets.StyleSheet):
 
             rule._parentStyleSheet = None  # detach
             del self._cssRules[index]  # delete from StyleSheet
+            if rule.type in (rule.VARIABLES_RULE, rule.IMPORT_RULE):
+                self._updateVariables()
 
     def insertRule(self, rule, index=None, inOrder=False, _clean=True):  # noqa: C901
         """
